@@ -22,6 +22,11 @@ pub const DISTINCT_BIG: &[&str] = &["dna", "text", "skewed", "qualities", "two_s
 pub enum LayoutSpec {
     /// explicit inflated block lengths; `enc`: 0 = stored, 1 = deflate(1), 2 = deflate(6), 3 = mixed per block
     Built { lens: Vec<u32>, enc: u8, eofs: u8, class: String, cseed: u64 },
+    /// explicit members `(inflated length, required total member size)`: the member is built so that
+    /// its compressed size (BSIZE + 1) is exactly the required total (0 = no requirement, deflate(1)).
+    /// Covers BSIZE width boundaries (0x00ff/0x0100, 0x7fff/0x8000, 0xfffe/0xffff) that neither the
+    /// plain stored/deflated builder nor the noodles writer hits.
+    Sized { members: Vec<(u32, u32)>, eofs: u8, class: String, cseed: u64 },
     /// real writer: `total` payload bytes, split pattern, flush after every k-th write (0 = never),
     /// end = "finish" | "no_eof" (flush + into_inner) | "double_eof" (try_finish + finish)
     Writer { total: usize, class: String, split: String, flush_every: usize, level: u8, end: String, pseed: u64 },
@@ -32,6 +37,9 @@ impl LayoutSpec {
         match self {
             LayoutSpec::Built { lens, enc, eofs, class, cseed } => {
                 json!({"kind": "built", "lens": lens, "enc": enc, "eofs": eofs, "class": class, "cseed": cseed})
+            }
+            LayoutSpec::Sized { members, eofs, class, cseed } => {
+                json!({"kind": "sized", "members(len,total)": members, "eofs": eofs, "class": class, "cseed": cseed})
             }
             LayoutSpec::Writer { total, class, split, flush_every, level, end, pseed } => {
                 json!({"kind": "writer", "total": total, "class": class, "split": split, "flush_every": flush_every,
@@ -83,6 +91,88 @@ fn member(cseed: u64, class: &str, len: usize, j: usize, enc: u8) -> Entry {
 
 /// `Err` = the layout could not be established (walker rejects the real writer's output, or its
 /// inflation differs from the payload): C01's business, inconclusive here.
+fn wrap_member(data: &[u8], cdata: &[u8]) -> Vec<u8> {
+    let size = 18 + cdata.len() + 8;
+    assert!(size <= 65536);
+    let mut m = Vec::with_capacity(size);
+    m.extend_from_slice(&[0x1f, 0x8b, 0x08, 0x04, 0, 0, 0, 0, 0, 0xff, 6, 0, b'B', b'C', 2, 0]);
+    m.extend_from_slice(&((size - 1) as u16).to_le_bytes());
+    m.extend_from_slice(cdata);
+    m.extend_from_slice(&ob::crc32(data).to_le_bytes());
+    m.extend_from_slice(&(data.len() as u32).to_le_bytes());
+    m
+}
+
+/// non-final stored DEFLATE blocks (RFC 1951 3.2.4); they end byte-aligned, so another raw DEFLATE
+/// stream may follow
+fn stored_nonfinal(data: &[u8], out: &mut Vec<u8>) {
+    for c in data.chunks(65535) {
+        out.push(0);
+        let n = c.len() as u16;
+        out.extend_from_slice(&n.to_le_bytes());
+        out.extend_from_slice(&(!n).to_le_bytes());
+        out.extend_from_slice(c);
+    }
+}
+
+/// A BGZF member for `data` whose total size is exactly `total` bytes (BSIZE = total - 1):
+/// one final stored block if that is the size; otherwise stored non-final blocks for a prefix,
+/// 0..3 empty non-final stored blocks (`00 00 00 ff ff`) as padding, and a miniz-deflated tail whose
+/// length is searched so that the sizes add up.
+pub fn build_member_exact(data: &[u8], total: usize) -> Option<Vec<u8>> {
+    let l = data.len();
+    if total < 18 + 8 + 2 || total > 65536 || l > 65536 {
+        return None;
+    }
+    let need = total - 26;
+    if l <= 65535 && l + 5 == need {
+        return Some(wrap_member(data, &ob::stored_deflate(data)));
+    }
+    for rem in 1..=l.min(6000) {
+        let r = l - rem;
+        let tail = vcore_deflate(&data[r..]);
+        let prefix = r + 5 * r.div_ceil(65535);
+        let base = prefix + tail.len();
+        if base <= need && (need - base) % 5 == 0 && (need - base) / 5 <= 3 {
+            let mut cdata = Vec::with_capacity(need);
+            stored_nonfinal(&data[..r], &mut cdata);
+            for _ in 0..(need - base) / 5 {
+                cdata.extend_from_slice(&[0, 0, 0, 0xff, 0xff]);
+            }
+            cdata.extend_from_slice(&tail);
+            debug_assert_eq!(cdata.len(), need);
+            return Some(wrap_member(data, &cdata));
+        }
+    }
+    None
+}
+
+fn vcore_deflate(data: &[u8]) -> Vec<u8> {
+    // the same independent encoder vcore::bgzf::build_member uses (miniz_oxide), reached through it:
+    // strip the 18-byte header and the 8-byte trailer of a deflate(6) member
+    let m = ob::build_member(data, ob::Enc::Deflate(6)).expect("small tail fits");
+    m[18..m.len() - 8].to_vec()
+}
+
+fn sized_member(cseed: u64, class: &str, len: usize, total: usize, j: usize) -> Entry {
+    let key = (cseed, format!("{class}#{total}"), len, j, 9);
+    if let Some(e) = cache().lock().unwrap().get(&key) {
+        return e.clone();
+    }
+    let mut rng = Rng::new(cseed, len as u64, j as u64);
+    let data = payload::make(class, len, &mut rng);
+    let m = if total == 0 {
+        ob::build_member(&data, ob::Enc::Deflate(1)).or_else(|| ob::build_member(&data, ob::Enc::Stored)).expect("harness: member does not fit")
+    } else {
+        build_member_exact(&data, total)
+            .unwrap_or_else(|| panic!("harness: no member of exactly {total} bytes for {len} bytes of class {class} (seed {cseed}, block {j})"))
+    };
+    assert!(total == 0 || m.len() == total);
+    let e = Arc::new((data, m));
+    cache().lock().unwrap().insert(key, e.clone());
+    e
+}
+
 pub fn build(spec: &LayoutSpec) -> Result<Built, String> {
     let (file, expect): (Vec<u8>, Vec<u8>) = match spec {
         LayoutSpec::Built { lens, enc, eofs, class, cseed } => {
@@ -94,6 +184,19 @@ pub fn build(spec: &LayoutSpec) -> Result<Built, String> {
                 // big blocks need a compressible class; stored members hold at most 65 505 bytes
                 let class: &str = if len as usize > 60000 && !DISTINCT_BIG.contains(&class.as_str()) { "dna" } else { class };
                 let m = member(*cseed, class, len as usize, j, e);
+                u.extend_from_slice(&m.0);
+                file.extend_from_slice(&m.1);
+            }
+            for _ in 0..*eofs {
+                file.extend_from_slice(&ob::EOF_MARKER);
+            }
+            (file, u)
+        }
+        LayoutSpec::Sized { members, eofs, class, cseed } => {
+            let mut file = Vec::new();
+            let mut u = Vec::new();
+            for (j, &(len, total)) in members.iter().enumerate() {
+                let m = sized_member(*cseed, class, len as usize, total as usize, j);
                 u.extend_from_slice(&m.0);
                 file.extend_from_slice(&m.1);
             }
